@@ -3,4 +3,5 @@ CONSTANTS
   D = 12
   MaxG = 4
 INVARIANT Lemmas
+INVARIANT Lumping
 CHECK_DEADLOCK FALSE
